@@ -18,6 +18,7 @@ class Fmt:
     codes: str            # e.g. 'I', 'BBB', or element code when variable
     variable: bool = False
     text: str = ""
+    count: str = ""       # for variable formats: text of the repeat-count expression (locals substituted)
 
     def size(self) -> Optional[int]:
         if self.variable:
@@ -56,7 +57,46 @@ def parse_fmt(repo: Repo, ci: Optional[ClassInfo], e: ast.expr, env: Optional[Di
         if isinstance(left, str) and left[:1] in "<>=!@" and len(left) == 1:
             inner = parse_fmt(repo, ci, e.right, env, sf)
             if inner is not None and inner.order == "":
-                return Fmt(left, inner.codes, inner.variable, norm(e))
+                return Fmt(left, inner.codes, inner.variable, norm(e), count=inner.count)
+    # f"<{n}i" / f"{n}B" / f"<{'i' * n}" — a repeat count in front of one code, or an embedded code string
+    if isinstance(e, ast.JoinedStr):
+        parts = list(e.values)
+        order = ""
+        if parts and isinstance(parts[0], ast.Constant) and isinstance(parts[0].value, str) and parts[0].value[:1] in "<>=!@":
+            order = parts[0].value[0]
+            rest0 = parts[0].value[1:]
+            parts = ([ast.Constant(value=rest0)] if rest0 else []) + parts[1:]
+        if len(parts) == 2 and isinstance(parts[0], ast.FormattedValue) and isinstance(parts[1], ast.Constant) \
+                and isinstance(parts[1].value, str) and len(parts[1].value) == 1 and parts[1].value.isalpha() and parts[0].format_spec is None:
+            try:
+                n = repo.fold(parts[0].value, ci=ci, sf=sf)
+                if isinstance(n, int):
+                    return Fmt(order, parts[1].value * n, False, norm(e))
+            except NotConst:
+                pass
+            return Fmt(order, parts[1].value, True, norm(e), count=norm(parts[0].value))
+        if len(parts) == 1 and isinstance(parts[0], ast.FormattedValue) and parts[0].format_spec is None:
+            inner = parse_fmt(repo, ci, parts[0].value, env, sf)
+            if inner is not None and inner.order == "":
+                return Fmt(order, inner.codes, inner.variable, norm(e), count=inner.count)
+    # "%dB" % n   /   "<{}i".format(n)
+    lit = cnt = None
+    if isinstance(e, ast.BinOp) and isinstance(e.op, ast.Mod) and isinstance(e.left, ast.Constant) and isinstance(e.left.value, str):
+        lit, cnt = e.left.value.replace("%d", "{}").replace("%i", "{}"), (e.right.elts[0] if isinstance(e.right, ast.Tuple) and len(e.right.elts) == 1 else e.right)
+    if isinstance(e, ast.Call) and isinstance(e.func, ast.Attribute) and e.func.attr == "format" and isinstance(e.func.value, ast.Constant) \
+            and isinstance(e.func.value.value, str) and len(e.args) == 1 and not e.keywords:
+        lit, cnt = e.func.value.value.replace("{0}", "{}"), e.args[0]
+    if lit is not None:
+        import re as _re
+        m = _re.match(r"^([<>=!@]?)\{\}([A-Za-z])$", lit)
+        if m:
+            try:
+                n = repo.fold(cnt, ci=ci, sf=sf)
+                if isinstance(n, int):
+                    return Fmt(m.group(1), m.group(2) * n, False, norm(e))
+            except NotConst:
+                pass
+            return Fmt(m.group(1), m.group(2), True, norm(e), count=norm(cnt))
     if isinstance(e, ast.BinOp) and isinstance(e.op, ast.Mult):
         for a, b in ((e.left, e.right), (e.right, e.left)):
             try:
@@ -70,7 +110,7 @@ def parse_fmt(repo: Repo, ci: Optional[ClassInfo], e: ast.expr, env: Optional[Di
                         return Fmt("", code * n, False, norm(e))
                 except NotConst:
                     pass
-                return Fmt("", code, True, norm(e))
+                return Fmt("", code, True, norm(e), count=norm(b))
     return None
 
 
@@ -229,6 +269,8 @@ def writer_rows(repo: Repo, ci: ClassInfo, fn: ast.FunctionDef, qual: Optional[s
     rows: List[WRow] = []
     qual = qual or f"{ci.qualname}.{fn.name}"
     rel = ci.file.rel
+    from . import inline
+    fn = inline.flatten(repo, ci, fn)          # private helper generators (`yield from self._x_chunks(m)`) are part of the writer
 
     def handle_yield(y: ast.AST, env, guards, loops):
         if isinstance(y, ast.YieldFrom):
@@ -332,6 +374,7 @@ class RRow:
     strict_decode: bool = True
     stmts: List[str] = field(default_factory=list)
     tuple_target: bool = False
+    cstring_head: bool = False     # a custom handler that first decodes the payload as NUL-terminated text
 
     @property
     def where(self) -> str:
@@ -361,7 +404,68 @@ def reader_rows(repo: Repo, ci: ClassInfo) -> Dict[str, RRow]:
     return out
 
 
+def is_nul_truncation(e: ast.expr, data: str) -> bool:
+    """Is `e` the part of the bytes `data` before its first NUL (all of it when there is none)?"""
+    # D[:D.find(0)] if 0 in D else D
+    if isinstance(e, ast.IfExp) and norm(e.orelse) == data and isinstance(e.test, ast.Compare) and len(e.test.ops) == 1 \
+            and isinstance(e.test.ops[0], ast.In) and norm(e.test.comparators[0]) == data \
+            and norm(e.test.left) in ("0", "b'\\x00'"):
+        b = e.body
+        if isinstance(b, ast.Subscript) and isinstance(b.slice, ast.Slice) and b.slice.lower is None and norm(b.value) == data \
+                and b.slice.upper is not None and norm(b.slice.upper) in (f"{data}.find(0)", f"{data}.index(0)", f"{data}.find(b'\\x00')", f"{data}.index(b'\\x00')"):
+            return True
+    # D.split(b"\0", 1)[0] / D.split(b"\0")[0] / D.partition(b"\0")[0]
+    if isinstance(e, ast.Subscript) and norm(e.slice) == "0" and isinstance(e.value, ast.Call) and isinstance(e.value.func, ast.Attribute) \
+            and norm(e.value.func.value) == data and e.value.func.attr in ("split", "partition") and e.value.args \
+            and norm(e.value.args[0]) == "b'\\x00'":
+        return True
+    return False
+
+
+def _is_cstring_value(v: ast.expr, data: str) -> Optional[bool]:
+    """None, or strictness, if `v` is `<NUL-truncation of data>.decode(...)`."""
+    if isinstance(v, ast.Call) and isinstance(v.func, ast.Attribute) and v.func.attr == "decode" and is_nul_truncation(v.func.value, data):
+        modes = [a.value for a in v.args[1:] if isinstance(a, ast.Constant)] + \
+                [k.value.value for k in v.keywords if k.arg == "errors" and isinstance(k.value, ast.Constant)]
+        return not any(m in ("ignore", "replace") for m in modes)
+    return None
+
+
+def cstring_decode(fn: ast.FunctionDef, data: str):
+    """(assignment, strict?, decoded-in-a-local?) for the first statement that stores the decoded NUL-truncated payload."""
+    env: Dict[str, ast.expr] = {}
+    local_decode = None
+    for st in stmts_of(fn):
+        if isinstance(st, ast.Assign) and len(st.targets) == 1:
+            t = st.targets[0]
+            v = subst(st.value, env)
+            strict = _is_cstring_value(v, data)
+            if strict is not None:
+                if isinstance(t, ast.Name):
+                    env[t.id] = v
+                    local_decode = (st, strict)
+                    continue
+                return st, strict, False
+            if isinstance(t, ast.Name):
+                env[t.id] = v
+                continue
+            # head, _, _ = data.partition(b"\0")
+            if isinstance(t, ast.Tuple) and t.elts and isinstance(t.elts[0], ast.Name) and isinstance(v, ast.Call) \
+                    and isinstance(v.func, ast.Attribute) and v.func.attr == "partition":
+                env[t.elts[0].id] = ast.Subscript(value=v, slice=ast.Constant(value=0), ctx=ast.Load())
+                continue
+        if isinstance(st, ast.AnnAssign) and st.value is not None and isinstance(st.target, ast.Name):
+            env[st.target.id] = subst(st.value, env)
+            continue
+        break
+    if local_decode is not None:
+        return local_decode[0], local_decode[1], True
+    return None
+
+
 def classify_handler(repo: Repo, ci: ClassInfo, cid: str, fn: ast.FunctionDef) -> RRow:
+    from . import inline
+    fn = inline.flatten(repo, ci, fn)
     body = stmts_of(fn)
     row = RRow(cid, "custom", None, [], "", fn, ci.qualname, ci.file.rel, stmts=[norm(s) for s in body])
     params = [a.arg for a in fn.args.args if a.arg != "self"]
@@ -370,7 +474,19 @@ def classify_handler(repo: Repo, ci: ClassInfo, cid: str, fn: ast.FunctionDef) -
     if not real or all(isinstance(s, ast.Pass) for s in real):
         row.shape = "ignored"
         return row
-    # cstring idiom
+    # cstring idiom (any spelling of "up to the first NUL", then decode)
+    cd = cstring_decode(fn, data)
+    if cd is not None:
+        st, strict, in_local = cd
+        rest = [x for x in real if getattr(x, "_seq", 0) > getattr(st, "_seq", 0)]
+        tn = _target_name(st.targets[0])
+        if not rest and tn and not in_local:
+            row.shape = "cstring"
+            row.targets = [tn]
+            row.strict_decode = strict
+            return row
+        row.cstring_head = True
+        row.strict_decode = strict
     if len(real) == 2 and isinstance(real[0], ast.Assign) and isinstance(real[1], ast.Assign):
         a0, a1 = real
         if isinstance(a0.value, ast.IfExp) and "find(0)" in norm(a0.value) and isinstance(a1.value, ast.Call) \
